@@ -1,4 +1,5 @@
 import Thm.ProcSimProg
+import RbModel.Proc.WfB
 /-!
 Procedures layer — a decidable form of the static premise `ProgWf` of `Proc.compile_correct`.
 
@@ -10,20 +11,6 @@ set_option linter.unusedVariables false
 set_option linter.unusedSimpArgs false
 open RbModel RbModel.Num RbModel.Proc RbModel.Proc.Compile RbModel.Proc.Vm
 open RbModel.Ast (Pos)
-
-mutual
-def eWfB (sg : Sigs) (sl : List Ty) : Proc.Expr → Bool
-  | .lit _ _ => true
-  | .var x t _ => decide (sl[x]? = some t)
-  | .un _ e _ => eWfB sg sl e
-  | .bin op l r t _ =>
-    eWfB sg sl l && eWfB sg sl r && (decide (op = .divide) || decide (Gen.NumTables.binType op l.ty r.ty = some t))
-  | .paren e _ => eWfB sg sl e
-  | .callFn f args t _ => decide (sg[f]? = some (some t, args.params)) && aWfB sg sl args
-def aWfB (sg : Sigs) (sl : List Ty) : Args → Bool
-  | .nil => true
-  | .cons e _ pt rest => eWfB sg sl e && (!e.isRef || decide (e.ty = pt)) && aWfB sg sl rest
-end
 
 mutual
 theorem eWfB_sound (sg : Sigs) (sl : List Ty) : ∀ e, eWfB sg sl e = true → EWf sg sl e
@@ -55,11 +42,6 @@ theorem aWfB_sound (sg : Sigs) (sl : List Ty) : ∀ a, aWfB sg sl a = true → A
     · exact h2
 end
 
-def itemsWfB (sg : Sigs) (sl : List Ty) : List PrintItem → Bool
-  | [] => true
-  | .expr e :: rest => eWfB sg sl e && itemsWfB sg sl rest
-  | _ :: rest => itemsWfB sg sl rest
-
 theorem itemsWfB_sound (sg : Sigs) (sl : List Ty) : ∀ items, itemsWfB sg sl items = true → ItemsWf sg sl items
   | [], _ => trivial
   | .expr e :: rest, h => by
@@ -72,10 +54,6 @@ theorem itemsWfB_sound (sg : Sigs) (sl : List Ty) : ∀ items, itemsWfB sg sl it
     simp only [itemsWfB] at h
     simp only [ItemsWf]; exact itemsWfB_sound sg sl rest h
 
-def selRelOpB (op : Op) : Bool :=
-  decide (op = .less) || decide (op = .lessOrEqual) || decide (op = .equal) || decide (op = .greaterOrEqual) ||
-    decide (op = .greater) || decide (op = .notEqual)
-
 theorem selRelOpB_sound (op : Op) (h : selRelOpB op = true) : SelRelOp op := by
   simp only [selRelOpB, Bool.or_eq_true, decide_eq_true_eq] at h
   simp only [SelRelOp]
@@ -87,11 +65,6 @@ theorem selRelOpB_sound (op : Op) (h : selRelOpB op = true) : SelRelOp op := by
   · exact .inr (.inr (.inr (.inr (.inl h))))
   · exact .inr (.inr (.inr (.inr (.inr h))))
 
-def caseWfB (sg : Sigs) (sl : List Ty) : CaseExpr → Bool
-  | .simple e => eWfB sg sl e
-  | .is op e => selRelOpB op && eWfB sg sl e
-  | .range lo hi => eWfB sg sl lo && eWfB sg sl hi
-
 theorem caseWfB_sound (sg : Sigs) (sl : List Ty) : ∀ c, caseWfB sg sl c = true → CaseWf sg sl c
   | .simple e, h => eWfB_sound sg sl e h
   | .is op e, h => by
@@ -101,26 +74,14 @@ theorem caseWfB_sound (sg : Sigs) (sl : List Ty) : ∀ c, caseWfB sg sl c = true
     simp only [caseWfB, Bool.and_eq_true] at h
     exact ⟨eWfB_sound sg sl lo h.1, eWfB_sound sg sl hi h.2⟩
 
-def condsWfB (sg : Sigs) (sl : List Ty) : List CaseExpr → Bool
-  | [] => true
-  | c :: rest => caseWfB sg sl c && condsWfB sg sl rest
-
 theorem condsWfB_sound (sg : Sigs) (sl : List Ty) : ∀ cs, condsWfB sg sl cs = true → CondsWf sg sl cs
   | [], _ => trivial
   | c :: rest, h => by
     simp only [condsWfB, Bool.and_eq_true] at h
     exact ⟨caseWfB_sound sg sl c h.1, condsWfB_sound sg sl rest h.2⟩
 
-def isSkipB : SStmt → Bool
-  | .skip => true
-  | _ => false
-
 theorem isSkipB_sound : ∀ s, isSkipB s = true → s = .skip := by
   intro s h; cases s <;> first | rfl | cases h
-
-def readWfB (sl : List Ty) : List (Nat × Ty × Pos) → Bool
-  | [] => true
-  | v :: rest => decide (sl[v.1]? = some v.2.1) && readWfB sl rest
 
 theorem readWfB_sound (sl : List Ty) : ∀ vars, readWfB sl vars = true → ∀ v ∈ vars, sl[v.1]? = some v.2.1
   | [], _, v, hv => by simp at hv
@@ -130,37 +91,6 @@ theorem readWfB_sound (sl : List Ty) : ∀ vars, readWfB sl vars = true → ∀ 
     rcases hv with hv | hv
     · subst hv; exact h.1
     · exact readWfB_sound sl rest h.2 v hv
-
-mutual
-def wfB (sg : Sigs) (sc : Scope) : SStmt → Bool
-  | .skip => true
-  | .comment => true
-  | .seq a b => wfB sg sc a && wfB sg sc b
-  | .dim x t _ => decide (sc.slots[x]? = some t)
-  | .assign x t e _ => decide (sc.slots[x]? = some t) && eWfB sg sc.slots e
-  | .print items _ => itemsWfB sg sc.slots items && (!sc.inProc || !items.isEmpty)
-  | .ifBlock c thn elifs hasElse els _ =>
-    eWfB sg sc.slots c && decide (c.ty ≠ .str) && wfB sg sc thn && wfElifsB sg sc elifs && wfB sg sc els &&
-      (hasElse || isSkipB els)
-  | .while c body _ => eWfB sg sc.slots c && decide (c.ty ≠ .str) && wfB sg sc body
-  | .doLoop c _ _ body _ => eWfB sg sc.slots c && decide (c.ty ≠ .str) && wfB sg sc body
-  | .end_ _ => true
-  | .data _ _ => false
-  | .read vars _ => readWfB sc.slots vars
-  | .select e cases hasElse els _ =>
-    eWfB sg sc.slots e && wfCasesB sg sc cases && wfB sg sc els && (hasElse || isSkipB els)
-  | .forLoop x t lo hi step body _ =>
-    decide (sc.slots[x]? = some t) && eWfB sg sc.slots lo && eWfB sg sc.slots hi &&
-      (match step with | some se => eWfB sg sc.slots se | none => true) && wfB sg sc body
-  | .callSub f args _ => decide (sg[f]? = some (none, args.params)) && aWfB sg sc.slots args
-  | .exitProc _ => sc.inProc
-def wfElifsB (sg : Sigs) (sc : Scope) : ElseIfs → Bool
-  | .nil => true
-  | .cons c body rest => eWfB sg sc.slots c && decide (c.ty ≠ .str) && wfB sg sc body && wfElifsB sg sc rest
-def wfCasesB (sg : Sigs) (sc : Scope) : SCases → Bool
-  | .nil => true
-  | .cons conds body rest => !conds.isEmpty && condsWfB sg sc.slots conds && wfB sg sc body && wfCasesB sg sc rest
-end
 
 theorem elseB_sound {hasElse : Bool} {els : SStmt} (h : (hasElse || isSkipB els) = true) :
     hasElse = false → els = .skip := by
@@ -172,7 +102,7 @@ theorem ne_nil_of_not_isEmpty {α : Type} {l : List α} (h : (!l.isEmpty) = true
   intro hl; subst hl; simp at h
 
 mutual
-theorem wfB_sound (sg : Sigs) (sc : Scope) : ∀ s, wfB sg sc s = true → Wf sg sc s
+theorem wfB_sound (sg : Sigs) (sc : Scope) : ∀ s, wfB sg sc.slots sc.inProc s = true → Wf sg sc s
   | .skip, _ => trivial
   | .comment, _ => trivial
   | .seq a b, h => by
@@ -183,12 +113,8 @@ theorem wfB_sound (sg : Sigs) (sc : Scope) : ∀ s, wfB sg sc s = true → Wf sg
     simp only [wfB, Bool.and_eq_true, decide_eq_true_eq] at h
     exact ⟨h.1, eWfB_sound sg sc.slots e h.2⟩
   | .print items _, h => by
-    simp only [wfB, Bool.and_eq_true, Bool.or_eq_true, Bool.not_eq_true'] at h
-    refine ⟨itemsWfB_sound sg sc.slots items h.1, ?_⟩
-    intro hp
-    rcases h.2 with h2 | h2
-    · rw [hp] at h2; cases h2
-    · intro hl; subst hl; simp at h2
+    simp only [wfB] at h
+    exact itemsWfB_sound sg sc.slots items h
   | .ifBlock c thn elifs hasElse els _, h => by
     simp only [wfB, Bool.and_eq_true, decide_eq_true_eq] at h
     obtain ⟨⟨⟨⟨⟨h1, h2⟩, h3⟩, h4⟩, h5⟩, h6⟩ := h
@@ -220,12 +146,12 @@ theorem wfB_sound (sg : Sigs) (sc : Scope) : ∀ s, wfB sg sc s = true → Wf sg
     simp only [wfB, Bool.and_eq_true, decide_eq_true_eq] at h
     exact ⟨h.1, aWfB_sound sg sc.slots args h.2⟩
   | .exitProc _, h => by simpa [wfB, Wf] using h
-theorem wfElifsB_sound (sg : Sigs) (sc : Scope) : ∀ e, wfElifsB sg sc e = true → WfElifs sg sc e
+theorem wfElifsB_sound (sg : Sigs) (sc : Scope) : ∀ e, wfElifsB sg sc.slots sc.inProc e = true → WfElifs sg sc e
   | .nil, _ => trivial
   | .cons c body rest, h => by
     simp only [wfElifsB, Bool.and_eq_true, decide_eq_true_eq] at h
     exact ⟨eWfB_sound sg sc.slots c h.1.1.1, h.1.1.2, wfB_sound sg sc body h.1.2, wfElifsB_sound sg sc rest h.2⟩
-theorem wfCasesB_sound (sg : Sigs) (sc : Scope) : ∀ cs, wfCasesB sg sc cs = true → WfCases sg sc cs
+theorem wfCasesB_sound (sg : Sigs) (sc : Scope) : ∀ cs, wfCasesB sg sc.slots sc.inProc cs = true → WfCases sg sc cs
   | .nil, _ => trivial
   | .cons conds body rest, h => by
     simp only [wfCasesB, Bool.and_eq_true] at h
@@ -233,12 +159,7 @@ theorem wfCasesB_sound (sg : Sigs) (sc : Scope) : ∀ cs, wfCasesB sg sc cs = tr
       wfCasesB_sound sg sc rest h.2⟩
 end
 
-def wfTopB (sg : Sigs) (sc : Scope) : SStmt → Bool
-  | .seq a b => wfTopB sg sc a && wfTopB sg sc b
-  | .data _ _ => true
-  | st => wfB sg sc st
-
-theorem wfTopB_sound (sg : Sigs) (sc : Scope) : ∀ body, wfTopB sg sc body = true → WfTop sg sc body := by
+theorem wfTopB_sound (sg : Sigs) (sc : Scope) : ∀ body, wfTopB sg sc.slots sc.inProc body = true → WfTop sg sc body := by
   refine top_induction ?_ ?_
   · intro a b iha ihb h
     simp only [wfTopB, Bool.and_eq_true] at h
@@ -275,10 +196,6 @@ theorem slotsOk_of_wfSlots (d : ProcDecl SStmt) (h : d.wfSlots = true) : SlotsOk
     simp only [hr]
     rw [List.getElem?_append_right (by simp)]
     simp
-
-def progWfB (prog : SProgram) : Bool :=
-  wfTopB (sigsOf prog.procs) (mainScope prog) prog.body &&
-    prog.procs.all fun d => d.wfSlots && wfB (sigsOf prog.procs) (procScope d) d.body
 
 theorem progWfB_sound (prog : SProgram) (h : progWfB prog = true) : ProgWf prog := by
   simp only [progWfB, Bool.and_eq_true, List.all_eq_true] at h
